@@ -261,6 +261,11 @@ class Mirror(object):
             tk = SYM_WITH_TABLE[name]
             kw2 = []
             okk = True
+            if len(args) == 3 and not kw:
+                # the table passed positionally (third parameter)
+                if isT(args[2]):
+                    return tm.call(fn, (args[1], args[0], args[2].a[0]), kw)
+                okk = False
             for n, v in kw:
                 if n == tk:
                     if isT(v):
